@@ -18,7 +18,7 @@ abstract outcome.  Verdicts come only from these replays.
 Also here: clause (g) of C06 (EditRequests.tla) - edit/lookup requests naming missing graphs, the empty
 name, schema-suffixed names, GraphElements with neither vertex nor edge, elements without data - sent to
 the in-process server handlers; a crash is reported with signature `server <Handler> crash: <site>`."""
-import json, os, collections
+import json, os, collections, shutil, tempfile
 from concurrent.futures import ThreadPoolExecutor
 import storecmp
 from travcmp import norm
@@ -175,23 +175,23 @@ class Judge:
         return False
 
 
-def requests_for(stream_msg, idx, scaled=False):
-    """the replay requests for one TLC stream message"""
+def requests_for(stream_msg, idx, scaled=False, nvar=6):
+    """the replay requests for one TLC stream message: always the plain server; of the six other
+    variants `nvar` are taken in rotation (all of them are covered evenly over the stream space)"""
     st = stream_msg["stream"]
     out = stream_msg["out"]
-    reqs = []
     base = dict(kind="stream", stream=st)
     if scaled:
         base.update(scaled=True, base=stream_msg["base"])
-    reqs.append((dict(base, target="server", pol="all"), out["all"], 0))
-    pols = ["g1"] if scaled else ["all", "g1", "g2"]
-    for p in pols:
-        reqs.append((dict(base, target="server+filter", pol=p, writable=POLICY_WRITABLE[p]), out[p], 0))
-    reqs.append((dict(base, target="kvgraph", pol="all"), out["all"], 0))
     foreign = sum(1 for e in st if e["g"] != "g1")
-    reqs.append((dict(base, target="streambatch", pol="g1", graph="g1", batch=(50 if scaled else 1 + idx % 3)), out["g1"], foreign))
-    reqs.append((dict(base, target="sequential", pol="all"), out["all"], 0))
-    return reqs
+    reqs = [(dict(base, target="server", pol="all"), out["all"], 0)]
+    variants = [(dict(base, target="server+filter", pol=p, writable=POLICY_WRITABLE[p]), out[p], 0) for p in (["g1"] if scaled else ["all", "g1", "g2"])]
+    variants.append((dict(base, target="kvgraph", pol="all"), out["all"], 0))
+    variants.append((dict(base, target="streambatch", pol="g1", graph="g1", batch=(50 if scaled else 1 + idx % 3)), out["g1"], foreign))
+    variants.append((dict(base, target="sequential", pol="all"), out["all"], 0))
+    if nvar >= len(variants):
+        return reqs + variants
+    return reqs + [variants[(idx * nvar + j) % len(variants)] for j in range(nvar)]
 
 
 def run(ctx):
@@ -253,8 +253,12 @@ def run(ctx):
 
     # ---------------------------------------------------------------- 2. requests
     reqs = []
+    thin = int(os.environ.get("VERIF_C18_THIN", "1") or 1)      # development aid: replay every n-th stream only
+    if thin > 1:
+        streams = streams[::thin]
+        scaled = scaled[::thin]
     for n, s in enumerate(streams):
-        reqs += requests_for(s, n)
+        reqs += requests_for(s, n, nvar=(2 if quick else 3))
     for n, s in enumerate(scaled):
         reqs += requests_for(s, n, scaled=True)
     # the model's commit-order witnesses, replayed with that schedule imposed on the consumer goroutines
@@ -274,7 +278,16 @@ def run(ctx):
         lines.append(dict(kind="edit", req=e["req"], i=nstream + j))
     inp = ctx.write_ndjson("bulk_in.ndjson", lines)
     outp = os.path.join(ctx.scratch, "bulk_out.ndjson")
-    ctx.harness(["bulk", "-j", "12", "-timeout", "120s"], input_path=inp, output_path=outp, timeout=3000)
+    # the stores live on tmpfs when there is one: Badger syncs every transaction, which dominates the replay otherwise
+    shm = None
+    if os.path.isdir("/dev/shm") and os.access("/dev/shm", os.W_OK):
+        shm = tempfile.mkdtemp(prefix="verif_C18_", dir="/dev/shm")
+    try:
+        ctx.harness(["bulk", "-j", "12", "-timeout", "120s"], input_path=inp, output_path=outp, timeout=3000,
+                    env=(dict(TMPDIR=shm) if shm else None))
+    finally:
+        if shm:
+            shutil.rmtree(shm, ignore_errors=True)
     outs = {o["i"]: o for o in ctx.read_ndjson(outp) if "i" in o}
     if len(outs) != len(lines) - 1:
         raise Inconclusive("bulk harness answered %d of %d requests" % (len(outs), len(lines) - 1))
